@@ -121,6 +121,11 @@ func (p FieldData) Parse() (f *Field, err error) {
 		return f, errors.New("read OrgName failed")
 	}
 
+	// the fixed-length part: filler(1) charset(2) length(4) type(1) flags(2) decimals(1) filler(2)
+	if len(p)-pos < 13 {
+		return f, ErrMalformPacket
+	}
+
 	//skip oc
 	pos++
 
@@ -151,9 +156,10 @@ func (p FieldData) Parse() (f *Field, err error) {
 	//if more data, command was field list
 	if len(p) > pos {
 		//length of default value lenenc-int
-		f.DefaultValueLength, pos, _, _ = ReadLenEncInt(p, pos)
+		f.DefaultValueLength, pos, _, ok = ReadLenEncInt(p, pos)
 
-		if pos+int(f.DefaultValueLength) > len(p) {
+		// compare as uint64 against the remaining bytes: a length that does not fit an int must not wrap around
+		if !ok || f.DefaultValueLength > uint64(len(p)-pos) {
 			err = ErrMalformPacket
 			return
 		}
